@@ -125,6 +125,20 @@ def canon0(b, fmt):
     return 0 if (b & ((1 << (W[fmt] - 1)) - 1)) == 0 else b
 
 
+def _nondefault(functional, fast, size):
+    """keyword arguments that differ from the documented defaults (functional=False, fast=False, size=None) only: a requested
+    configuration that IS the default is called by omission, so the default values in the signatures are exercised too (a first-order
+    mutant `fast=True` in the signature of apmath.multiply survived when every keyword was always passed)"""
+    kw = {}
+    if functional:
+        kw["functional"] = True
+    if fast:
+        kw["fast"] = True
+    if size is not None:
+        kw["size"] = size
+    return kw
+
+
 def real_renorm(fmt, bits, functional, fast, size=None):
     from functional_algorithms import apmath
 
@@ -132,7 +146,7 @@ def real_renorm(fmt, bits, functional, fast, size=None):
     seq = [fpx.arr_from_bits([b], fmt)[0] for b in bits]
     with warnings.catch_warnings(), numpy.errstate(all="ignore"):
         warnings.simplefilter("ignore")
-        res = apmath.renormalize(np_ctx(fmt), seq, functional=functional, fast=fast, size=size)
+        res = apmath.renormalize(np_ctx(fmt), seq, **_nondefault(functional, fast, size))
     return [engine.ir.canon_bits(engine.ir.bits_of(dt(v), fmt), fmt) for v in res]
 
 
@@ -145,9 +159,9 @@ def real_binop(name, fmt, b1, b2, functional, fast=False, size=None):
     with warnings.catch_warnings(), numpy.errstate(all="ignore"):
         warnings.simplefilter("ignore")
         if name == "square":
-            res = apmath.square(np_ctx(fmt), s1, functional=functional, fast=fast, size=size)
+            res = apmath.square(np_ctx(fmt), s1, **_nondefault(functional, fast, size))
         else:
-            res = getattr(apmath, name)(np_ctx(fmt), s1, s2, functional=functional, fast=fast, size=size)
+            res = getattr(apmath, name)(np_ctx(fmt), s1, s2, **_nondefault(functional, fast, size))
     return [engine.ir.canon_bits(engine.ir.bits_of(dt(v), fmt), fmt) for v in res]
 
 
